@@ -44,7 +44,9 @@ def main():
             entry = {"property": meta["property"], "tier": tier, "checks": {}}
             for p in props:
                 t0 = time.time()
-                c = sh([os.path.join(VERIF, "check"), p, tier], cwd=VERIF)
+                env = dict(os.environ)
+                env["JL_EVIDENCE_DIR"] = os.path.join(VERIF, "out", "seeded-evidence")
+                c = sh([os.path.join(VERIF, "check"), p, tier], cwd=VERIF, env=env)
                 vio = [l for l in c.stdout.splitlines() if l.startswith("VIOLATION")]
                 sigs = [l.strip() for l in c.stdout.splitlines() if l.strip().startswith("violation monitor=")]
                 entry["checks"][p] = {"exit": c.returncode, "violation_lines": len(vio), "first_signatures": [s[:160] for s in sigs[:4]], "wall_s": round(time.time() - t0, 1)}
